@@ -160,6 +160,19 @@ def concretize(d):
         cmds = list(d[2])
         return dict(tool="btcdeb_tty", bin="btcdeb_tty", argv=list(argv), stdin="".join(c + "\n" for c in cmds), env={}, histdir=True,
                     base="tty/" + sid + "@unwritable-history", kind="history-file-unwritable", desc=" ; ".join(repr(c) for c in cmds) or "(no commands)")
+    if t == "R":
+        # the front end over the READLINE build of kerl (what ./configure produces; the other interactive items use the build without
+        # readline, which reads lines with fgets): continuation lines of an open quote, history loading and recording exist only there.
+        # d[2]: ("tf", index) | ("cmd", index, index...) ; d[3]: name of a prepared history file, or None
+        sid, argv = W.sess[d[1]]
+        if d[2][0] == "tf":
+            name, line = W.tfc[d[2][1]]
+            cmds, desc = [line, "stack"], name
+        else:
+            cmds = [W.alpha[i] for i in d[2][1:]]
+            desc = " ; ".join(repr(c) for c in cmds) or "(no commands)"
+        return dict(tool="btcdeb_tty_rl", bin="btcdeb_tty_rl", argv=list(argv), stdin="".join(c + "\n" for c in cmds), env={}, histfile=d[3],
+                    base="tty-readline/" + sid + ("@history:" + d[3] if d[3] else ""), kind="readline:" + d[2][0], desc=desc)
     if t == "X":
         sid, argv = W.sess[d[1]]
         line = W.xlines[d[2]]
@@ -196,6 +209,11 @@ def execute(ctxd, cwd, c, variant, _retry=False):
     if c.get("histdir"):
         cwd = os.path.join(cwd, "histdir")
         os.makedirs(os.path.join(cwd, ".btcdeb_history"), exist_ok=True)
+    if c.get("histfile"):
+        cwd = os.path.join(cwd, "histfile")
+        os.makedirs(cwd, exist_ok=True)
+        with open(os.path.join(cwd, ".btcdeb_history"), "wb") as fh:
+            fh.write(I.HISTORY_FILES[c["histfile"]])
     sin = c["stdin"]
     try:
         p = subprocess.Popen(cmd, stdin=subprocess.PIPE if sin is not None else subprocess.DEVNULL, stdout=subprocess.PIPE,
@@ -221,7 +239,7 @@ def execute(ctxd, cwd, c, variant, _retry=False):
         except ValueError:
             sig = "SIG%d" % -rc
     h = os.path.join(cwd, ".btcdeb_history")
-    if c["bin"] == "btcdeb_tty" and os.path.exists(h):
+    if c["bin"] in ("btcdeb_tty", "btcdeb_tty_rl") and os.path.exists(h):
         try:
             os.unlink(h)
         except OSError:
@@ -708,6 +726,18 @@ def enumerate_space(ctx, bases, txs):
                     continue     # quick: the step/rewind pairings of the tf commands on the first session only
                 items.append((("F", si, ti, pi), "asan"))
                 n_tf += 1
+    # the readline front end: every tf command line (the open-quote continuations among them), every command of the alphabet alone and
+    # after a step, and start-up over each prepared history file
+    n_rl = 0
+    for ti in range(len(tfc)):
+        items.append((("R", 0, ("tf", ti), None), "asan")); n_rl += 1
+    for a in range(A):
+        items.append((("R", 0, ("cmd", a), None), "asan")); n_rl += 1
+        items.append((("R", 0, ("cmd", 0, a), None), "asan")); n_rl += 1
+    for hname in sorted(I.HISTORY_FILES):
+        for si in range(min(2, len(sess))):
+            items.append((("R", si, ("cmd", 0, 3), hname), "asan")); n_rl += 1
+    bounds["readline_front_end_runs"] = n_rl
     # valgrind slice (plain binaries)
     vg = []
     seen_k = set()
@@ -964,6 +994,37 @@ def run(ctx):
             cov["distinct_violation_keys"] = len(violations)
     else:
         infra = "sanitizer build of mc_bounds missing"
+    # the history file read at start-up by the readline build of kerl (the checks' REPL runs use the build without readline, where that
+    # loader does not exist): every history file of up to 2 (thorough: 3) lines over 14 line shapes, loaded by the real
+    # kerl_set_history_file in the sanitizer flavour (mc/kerlhist.c)
+    kh = os.path.join(ctx.bdir_asan, "khist.%d" % os.getpid())
+    if os.path.exists(os.path.join(ctx.bdir_asan, "kerlhist")):
+        os.makedirs(kh, exist_ok=True)
+        try:
+            r = subprocess.run([os.path.join(ctx.bdir_asan, "kerlhist"), kh, "3" if ctx.tier == "thorough" else "2"], stdout=subprocess.PIPE, stderr=subprocess.PIPE, text=True, timeout=1800,
+                               env=dict(os.environ, ASAN_OPTIONS="detect_leaks=0", UBSAN_OPTIONS="print_stacktrace=0"))
+            summ = [l.split("\t") for l in r.stdout.splitlines() if l.startswith("SUMMARY\t")]
+            if r.returncode != 0 or not summ:
+                infra = "kerlhist failed: exit %s %s" % (r.returncode, (r.stderr or r.stdout)[-500:])
+            else:
+                byk = {}
+                for l in r.stdout.splitlines():
+                    if not l.startswith("DEATH\t"):
+                        continue
+                    f = l.split("\t")
+                    head = re.sub(r"[0-9]+", "N", f[5].split("error: ")[-1].split("ERROR: ")[-1])[:120] if len(f) > 5 and f[5] else "%s-%s" % (f[1], f[2])
+                    k = "history-loader:" + re.sub(r"[^A-Za-z0-9_.:\[\]-]+", "-", head).strip("-")
+                    e = byk.setdefault(k, {"key": k, "what": "loading .btcdeb_history with lines (%s), %s: the loader dies (%s %s): %s" % (f[3], f[4], f[1], f[2], f[5] if len(f) > 5 else ""), "count": 0,
+                                           "replay": {"engine": "kerlhist", "lines": f[3].split(","), "final_newline": f[4] == "final-newline"}})
+                    e["count"] += 1
+                violations.extend(byk.values())
+                cov["history_file_loader"] = {"engine": "kerlhist (readline build of kerl/kerl.c, asan+ubsan flavour)", "history_files": int(summ[0][1]), "loader_deaths": int(summ[0][2]),
+                                              "line_shapes": int(summ[0][3]), "max_lines": int(summ[0][4])}
+                cov["distinct_violation_keys"] = len(violations)
+        finally:
+            shutil.rmtree(kh, ignore_errors=True)
+    else:
+        infra = "sanitizer build of kerlhist missing"
     if any(r[7] == -1000 for r in results):
         infra = "some processes could not be spawned"
     tools_seen = set(per_tool)
@@ -995,6 +1056,16 @@ def replay(ctx, path):
     with open(path) as fh:
         rec = json.load(fh)
     rp = rec.get("replay") or rec
+    if rp.get("engine") == "kerlhist":
+        kh = tempfile.mkdtemp(prefix="khr-", dir=ctx.bdir_asan)
+        try:
+            r = subprocess.run([os.path.join(ctx.bdir_asan, "kerlhist"), kh, str(max(2, len(rp.get("lines") or [])))], stdout=subprocess.PIPE, stderr=subprocess.STDOUT, text=True)
+            want = "\t%s\t%s\t" % (",".join(rp.get("lines") or []), "final-newline" if rp.get("final_newline") else "no-final-newline")
+            hits = [l for l in r.stdout.splitlines() if l.startswith("DEATH") and want in l]
+            print("\n".join(hits) if hits else "the loader survives this history file")
+            return 1 if hits else 0
+        finally:
+            shutil.rmtree(kh, ignore_errors=True)
     repo = os.path.realpath(ctx.repo)
     ctxd = dict(repo=repo, tier=ctx.tier, bdir=ctx.bdir, bdir_asan=ctx.bdir_asan)
     scratch = tempfile.mkdtemp(prefix="c15r-", dir=ctx.bdir)
